@@ -12,7 +12,7 @@ W(cond, name) == IF cond THEN {} ELSE {name}
 Flat(ss) == LET F[k \in 0..Len(ss)] == IF k = 0 THEN <<>> ELSE F[k-1] \o ss[k] IN F[Len(ss)]
 
 RowFails(r) ==
-  LET R == r.rounds  H == r.H  n == r.reps IN
+  LET R == r.rounds  H == r.H  n == r.reps  K == r.K IN
   UNION {LET b == r.blocks[k] IN
            W(b.start = Start(R, H, k) /\ b.stop = Stop(R, H, k), "C12.contiguous")
            \cup W(b.length = BlockLen(R[k], H), "C12.length")
@@ -23,26 +23,28 @@ RowFails(r) ==
                   /\ SeqSet(b.all_d) = SeqSet(Heralded(R, H, k)) \cup SeqSet(Final(R, H, k, FALSE)) /\ b.all_x = <<>>, "C12.contains")
            \cup W(SeqSet(b.all_a) \subseteq b.start..b.stop /\ Len(b.all_a) = Cardinality(SeqSet(b.all_a)), "C12.inside")
          : k \in 1..Len(r.blocks)}
-  \cup W(Len(r.blocks) = Len(R), "C12.kernels")
-  \cup W(r.cal.start = CalStart(R, H) /\ r.cal.stop = CalStop(R, H) /\ r.cal.length = CalLen(H), "C12.calibration.range")
-  \cup W(\A s \in 0..2 : r.cal.her[s+1] = CalHeralded(R, H, s) /\ r.cal.proj[s+1] = CalProjected(R, H, s), "C12.calibration.index")
-  \cup W(SeqSet(r.cal.all) = CalStart(R, H)..CalStop(R, H) /\ r.cal.all_x = <<>>, "C12.calibration.cover")
-  \cup W(r.cycle = Cycle(R, H) /\ r.exp_start = 0, "C12.cycle")
-  \cup W(\A s \in 0..2 : r.sl_cal_proj[s+1] = Flat(Sliced(CalProjected(R, H, s), R, H, n))
-                         /\ r.sl_cal_her[s+1] = Flat(Sliced(CalHeralded(R, H, s), R, H, n)), "C12.translate.calibration")
+  \cup W(Len(r.blocks) = Len(R) /\ r.ncal = K /\ r.nother = 0 /\ (K = 1 => r.cal_last), "C12.kernels")
+  \cup (IF r.cal_last
+        THEN W(r.cal.start = CalStart(R, H) /\ r.cal.stop = CalStop(R, H) /\ r.cal.length = CalLen(H), "C12.calibration.range")
+             \cup W(\A s \in 0..2 : r.cal.her[s+1] = CalHeralded(R, H, s) /\ r.cal.proj[s+1] = CalProjected(R, H, s), "C12.calibration.index")
+             \cup W(SeqSet(r.cal.all) = CalStart(R, H)..CalStop(R, H) /\ r.cal.all_x = <<>>, "C12.calibration.cover")
+        ELSE {})
+  \cup W(r.cycle = CycleK(R, H, K) /\ r.exp_start = 0 /\ r.exp_stop = n * CycleK(R, H, K), "C12.cycle")
+  \cup W(\A s \in 0..2 : r.sl_cal_proj[s+1] = Flat(SlicedK(CalProjectedK(R, H, K, s), R, H, K, n))
+                         /\ r.sl_cal_her[s+1] = Flat(SlicedK(CalHeraldedK(R, H, K, s), R, H, K, n)), "C12.translate.calibration")
   \cup W(\A k \in 1..Len(R) :
-            /\ r.sl_her[k] = (IF H = 1 THEN Sliced(Heralded(R, H, k), R, H, n) ELSE [j \in 1..n |-> <<>>])
-            /\ r.sl_stab_a[k] = Sliced(Stab(R, H, k, TRUE) \o Final(R, H, k, TRUE), R, H, n)
-            /\ r.sl_stab_d[k] = Sliced(Final(R, H, k, FALSE), R, H, n)
-            /\ r.sl_proj_a[k] = Sliced(Final(R, H, k, TRUE), R, H, n)
-            /\ r.sl_proj_d[k] = Sliced(Final(R, H, k, FALSE), R, H, n), "C12.translate")
-  \cup W(r.estimate = n /\ r.estimate_off_rejected, "C12.estimate")
+            /\ r.sl_her[k] = (IF H = 1 THEN SlicedK(Heralded(R, H, k), R, H, K, n) ELSE [j \in 1..n |-> <<>>])
+            /\ r.sl_stab_a[k] = SlicedK(Stab(R, H, k, TRUE) \o Final(R, H, k, TRUE), R, H, K, n)
+            /\ r.sl_stab_d[k] = SlicedK(Final(R, H, k, FALSE), R, H, K, n)
+            /\ r.sl_proj_a[k] = SlicedK(Final(R, H, k, TRUE), R, H, K, n)
+            /\ r.sl_proj_d[k] = SlicedK(Final(R, H, k, FALSE), R, H, K, n), "C12.translate")
+  \cup W(r.estimate = n /\ (CycleK(R, H, K) > 1 => r.estimate_off_rejected), "C12.estimate")     \* size + 1 is a multiple of a cycle of 1
 
 RECURSIVE Lists(_, _)
 Lists(S, m) == IF m = 0 THEN {<<>>} ELSE {<<>>} \cup UNION {{<<x>> \o t : t \in Lists(S \ {x}, m - 1)} : x \in S}
 Covered ==
-  LET want == (Lists(0..MaxRound, MaxLen) \ {<<>>}) \X {0, 1} \X (1..MaxReps)
-      got == {<<Rows[j].rounds, Rows[j].H, Rows[j].reps>> : j \in 1..Len(Rows)} IN
+  LET want == (Lists(0..MaxRound, MaxLen) \ {<<>>}) \X {0, 1} \X {0, 1} \X (1..MaxReps)
+      got == {<<Rows[j].rounds, Rows[j].H, Rows[j].K, Rows[j].reps>> : j \in 1..Len(Rows)} IN
   want \subseteq got
 
 Init == i = 1 /\ fails = <<>>
